@@ -393,24 +393,17 @@ func (n NaturalLanguageValues) MarshalJSON() ([]byte, error) {
 	empty := true
 	// a JSON object must not repeat a member name: of the entries that would be written under one name (the same tag
 	// twice, or tags that differ only in bytes JSON can not carry) the first is written, as Get returns the first
-	written := make([][]byte, 0, l)
+	written := make(map[string]struct{}, l)
 	for _, val := range n {
 		if len(val.Ref) == 0 || len(val.Value) == 0 {
 			continue
 		}
 		name := bytes.Buffer{}
 		stringBytes(&name, []byte(val.Ref), false)
-		repeated := false
-		for _, w := range written {
-			if bytes.Equal(w, name.Bytes()) {
-				repeated = true
-				break
-			}
-		}
-		if repeated {
+		if _, repeated := written[name.String()]; repeated {
 			continue
 		}
-		written = append(written, name.Bytes())
+		written[name.String()] = struct{}{}
 		if !empty {
 			b.Write([]byte{','})
 		}
